@@ -96,6 +96,8 @@ def run(ck: Check, repo: Repo) -> None:
     r7_overrides_complete(ck, repo)
     r8_tournament(ck, repo)
     r9_inspect_excludes(ck, repo, inspect_attrs, clone)
+    from ._c01_extra import run_extra
+    run_extra(ck, repo)
 
 
 # --------------------------------------------------------------------------------------------- C01.1
@@ -655,6 +657,9 @@ _B = "agilerl/algorithms/core/base.py"
 _M = "agilerl/modules/base.py"
 _T = "agilerl/hpo/tournament.py"
 VARIANTS = [
+    ("td3-private-learn-counter", "agilerl/algorithms/td3.py", "        self.learn_counter += 1", "        self._learn_counter += 1", "fire", "C01.10"),
+    ("noisy-buffers-non-persistent", "agilerl/modules/custom_components.py", "        self.register_buffer(\"bias_epsilon\", torch.empty(out_features, device=device))", "        self.register_buffer(\"bias_epsilon\", torch.empty(out_features, device=device), persistent=False)", "fire", "C01.12"),
+    ("running-mean-std-callable", "agilerl/wrappers/agent.py", "class RunningMeanStd:\n", "class RunningMeanStd:\n    def __call__(self, x):\n        return (x - self.mean) / (self.var + self.epsilon) ** 0.5\n\n", "fire", "C01.11"),
     ("opt-state-alias", _B, "opt.load_state_dict(copy.deepcopy(orig_optimizer.state_dict()))", "opt.load_state_dict(orig_optimizer.state_dict())", "fire", "C01.1"),
     ("opt-state-via-temp-ok", _B, "opt.load_state_dict(copy.deepcopy(orig_optimizer.state_dict()))",
      "opt_state = copy.deepcopy(orig_optimizer.state_dict())\n            opt.load_state_dict(opt_state)", "silent", None),
